@@ -27,7 +27,7 @@ use std::sync::{mpsc, Arc, Mutex};
 use std::time::{Duration, Instant};
 use verif_harness::util::{quiet_panics, Rng, LAST_PANIC_LOC};
 
-const STACK: usize = 256 << 20;
+const STACK: usize = 64 << 20;
 const NMOD: usize = 3;
 
 // ------------------------------------------------------------------------------------------------
@@ -322,6 +322,7 @@ struct RunStats {
     panics: Vec<Value>,
     blocked: Option<Value>,
     queries: u64,
+    harness_error: Option<String>,
 }
 
 fn reader(sh: Arc<Shared>, r: usize, mut rng: Rng, max_q: usize, stats: mpsc::Sender<(f64, Vec<Value>, u64)>) {
@@ -518,19 +519,38 @@ fn one_run(plan: RunPlan, mut rng: Rng, attempt: u64, deadline: Duration, max_q:
         versions,
         menu,
     });
+    struct StopOnExit(Arc<Shared>); // whatever happens to this function, the run's threads are told to stop
+    impl Drop for StopOnExit {
+        fn drop(&mut self) {
+            self.0.stop.store(true, SeqCst);
+        }
+    }
+    let _guard = StopOnExit(sh.clone());
     let plan = Arc::new(plan);
     let (rtx, rrx) = mpsc::channel();
     let (wtx, wrx) = mpsc::channel();
     for r in 1..=n {
         let (sh, rtx) = (sh.clone(), rtx.clone());
         let rr = Rng::new(rng.next());
-        spawn(format!("reader{r}"), move || reader(sh, r, rr, max_q, rtx));
+        spawn(format!("reader{r}"), move || {
+            let tx2 = rtx.clone();
+            // a panic outside a query (snapshot(), drop of the snapshot) is data too, and must not hang the run
+            if let Err(p) = catch(|| reader(sh, r, rr, max_q, rtx)) {
+                let _ = tx2.send((0.0, vec![json!({"reader": r, "panic": p, "outside_a_query": true})], 0));
+            }
+        });
     }
     drop(rtx);
     {
         let (sh, plan) = (sh.clone(), plan.clone());
         let wr = Rng::new(rng.next());
-        spawn("writer".into(), move || writer(sh, plan, wr, wtx));
+        spawn("writer".into(), move || {
+            let (tx2, sh2) = (wtx.clone(), sh.clone());
+            if let Err(p) = catch(|| writer(sh, plan, wr, wtx)) {
+                sh2.stop.store(true, SeqCst);
+                let _ = tx2.send((vec![], vec![json!({"apply": 0, "panic": p, "outside_apply_change": true})]));
+            }
+        });
     }
     // watchdog: an apply (or a query) that stays in progress longer than the deadline is the liveness violation
     let mut blocked = None;
@@ -550,15 +570,15 @@ fn one_run(plan: RunPlan, mut rng: Rng, attempt: u64, deadline: Duration, max_q:
         }
         let now = sh.t0.elapsed().as_millis() as u64 + 1;
         let a = sh.apply_since_ms.load(SeqCst);
-        if a != 0 && now - a > deadline.as_millis() as u64 {
+        if a != 0 && now.saturating_sub(a) > deadline.as_millis() as u64 {
             let live: Vec<usize> = (1..=n).filter(|r| sh.query_since_ms[*r].load(SeqCst) != 0).collect();
-            blocked = Some(json!({"what": "apply blocked", "waited_ms": now - a, "readers_inside_a_query": live}));
+            blocked = Some(json!({"what": "apply blocked", "waited_ms": now.saturating_sub(a), "readers_inside_a_query": live}));
             break;
         }
         for r in 1..=n {
             let q = sh.query_since_ms[r].load(SeqCst);
-            if q != 0 && now - q > 2 * deadline.as_millis() as u64 {
-                blocked = Some(json!({"what": "query hung", "waited_ms": now - q, "reader": r}));
+            if q != 0 && now.saturating_sub(q) > 2 * deadline.as_millis() as u64 {
+                blocked = Some(json!({"what": "query hung", "waited_ms": now.saturating_sub(q), "reader": r}));
             }
         }
         if blocked.is_some() {
@@ -585,7 +605,7 @@ fn one_run(plan: RunPlan, mut rng: Rng, attempt: u64, deadline: Duration, max_q:
         all.push(json!({"ev": "reset", "run": plan.run, "attempt": attempt, "n": n, "k": plan.k, "nf": plan.nf, "refs": [], "aborted": true}));
     }
     all.extend(events);
-    RunStats { events: all, apply_ms, max_query_ms, panics, blocked, queries }
+    RunStats { events: all, apply_ms, max_query_ms, panics, blocked, queries, harness_error: None }
 }
 
 fn arg<T: std::str::FromStr>(args: &[String], name: &str, default: T) -> T {
@@ -645,7 +665,12 @@ fn main() {
             let (run, attempt) = items[i];
             let (plan, rng) = plan_run(seed, run, nf, max_n, max_k);
             let shape = json!({"run": run, "attempt": attempt, "readers": plan.n, "changes": plan.k, "funcs": plan.nf, "touch": plan.touches});
-            let st = one_run(plan, rng, attempt, deadline, max_q, nmenu);
+            // a panic of the harness itself (not of code under test, which is caught per call) must not go unnoticed
+            let st = match catch(|| one_run(plan, rng, attempt, deadline, max_q, nmenu)) {
+                Ok(st) => st,
+                Err(msg) => RunStats { events: vec![json!({"ev": "reset", "run": run, "attempt": attempt, "refs": [], "aborted": true})],
+                    apply_ms: vec![], max_query_ms: 0.0, panics: vec![], blocked: None, queries: 0, harness_error: Some(msg) },
+            };
             if st.blocked.is_some() {
                 abort.store(true, SeqCst);
             }
@@ -661,6 +686,7 @@ fn main() {
     let mut discr = (0u64, 0u64);
     let mut samples: Vec<Value> = vec![];
     let mut aborted = false;
+    let mut harness_errors = 0u64;
     for (run, st, shape) in rx {
         nruns += 1;
         nevents += st.events.len() as u64 - 1;
@@ -703,10 +729,14 @@ fn main() {
         }
         max_query = max_query.max(st.max_query_ms);
         let mut o = stdout.lock();
+        if let Some(msg) = &st.harness_error {
+            harness_errors += 1;
+            writeln!(o, "{}", json!({"kind": "harness_error", "run": run, "shape": shape, "error": msg})).unwrap();
+        }
         for p in &st.panics {
             mismatches += 1;
             let at = p["panic"].as_str().unwrap_or("").rsplit(" @ ").next().unwrap_or("").to_string();
-            writeln!(o, "{}", json!({"kind": "mismatch", "features": {"what": "panic", "where": if p.get("apply").is_some() { "apply_change" } else { "query" }, "panic_at": at},
+            writeln!(o, "{}", json!({"kind": "mismatch", "features": {"what": "panic", "where": if p.get("outside_a_query").is_some() { "snapshot_or_drop" } else if p.get("outside_apply_change").is_some() { "writer" } else if p.get("apply").is_some() { "apply_change" } else { "query" }, "panic_at": at},
                 "detail": {"run": run, "shape": shape, "panic": p}})).unwrap();
         }
         if let Some(b) = &st.blocked {
@@ -739,7 +769,7 @@ fn main() {
     writeln!(o, "{}", json!({"kind": "summary", "runs": nruns, "events": nevents, "queries": nqueries, "racing_runs": racing,
         "cancelled_results": cancelled, "mismatches": mismatches, "max_apply_ms": max_apply,
         "mean_apply_ms": if napply > 0 { sum_apply / napply as f64 } else { 0.0 }, "applies": napply, "max_query_ms": max_query,
-        "ref_pairs_differing": discr.0, "ref_pairs": discr.1, "aborted": aborted, "samples": samples})).unwrap();
+        "ref_pairs_differing": discr.0, "ref_pairs": discr.1, "aborted": aborted, "harness_errors": harness_errors, "samples": samples})).unwrap();
     o.flush().unwrap();
     // threads of a blocked run can never be joined
     std::process::exit(0);
